@@ -25,11 +25,22 @@ func (m Message) TagType() byte {
 }
 
 func (m Message) MarshalNBT(w io.Writer) error {
+	// MarshalNBT must write the payload only: the caller has already written
+	// the tag header. Encode into a buffer and drop the root tag header
+	// (type byte + empty name) that Encoder.Encode emits.
+	var buf bytes.Buffer
+	var err error
 	if m.Translate != "" {
-		return nbt.NewEncoder(w).Encode(translateMsg(m), "")
+		err = nbt.NewEncoder(&buf).Encode(translateMsg(m), "")
 	} else {
-		return nbt.NewEncoder(w).Encode(rawMsgStruct(m), "")
+		err = nbt.NewEncoder(&buf).Encode(rawMsgStruct(m), "")
 	}
+	if err != nil {
+		return err
+	}
+	const rootHeaderLen = 1 + 2 // tag type + length of the empty root name
+	_, err = w.Write(buf.Bytes()[rootHeaderLen:])
+	return err
 }
 
 func (m *Message) UnmarshalNBT(tagType byte, r nbt.DecoderReader) error {
